@@ -199,7 +199,10 @@ func (rb *replayBuilder) value(t types.Type, x *sexp, depth int) string {
 			return rb.typeStr(t) + "(" + v.String() + ")"
 		case u.Info()&types.IsString != 0:
 			// strings are uninterpreted: use a string of the model's length
-			ln, ok := rb.need(app("g_strlen", x.String()))
+			if rb.curTerm == "" || strings.Contains(x.String(), "!") && rb.curTerm == "" {
+				return rb.typeStr(t) + "(\"abc\")"
+			}
+			ln, ok := rb.need(app("g_strlen", rb.curTerm))
 			if !ok {
 				return zero()
 			}
@@ -507,7 +510,11 @@ func queryModel(ob *Obligation, fixed map[string]string, softs map[string]bool, 
 	}
 	sort.Strings(fk)
 	for _, k := range fk {
-		b.WriteString(fmt.Sprintf("(assert (= %s %s))\n", k, fixed[k]))
+		v := fixed[k]
+		if strings.Contains(v, "!") || strings.Contains(v, "lambda") || strings.Contains(v, "as-array") || strings.Contains(v, "as const") {
+			continue // values of uninterpreted sorts and arrays cannot be written back
+		}
+		b.WriteString(fmt.Sprintf("(assert (= %s %s))\n", k, v))
 	}
 	var sk []string
 	for k := range softs {
